@@ -1241,6 +1241,9 @@ class Sym:
         if k == 'member':
             out = []
             for s2, b in self.ev(le['base'], s):
+                if s2.throw is not None or b is None:
+                    out.append(s2)          # the object expression refused (a checked pointer was null): nothing is stored
+                    continue
                 if le.get('arrow'):
                     b = self.simp(('deref', b))
                 self.store_field(s2, b, le['name'], value)
